@@ -24,7 +24,7 @@ theorem execRead_app (s : State) (raw : Bool) (names : List String) (S : List By
   | false =>
     simp [execRead, State.app, State.stdin, State.setStdin, hsh]
   | true =>
-    have hfound : (readLine raw s.inp []).2.1 = true := by
+    have hfound : (readLine raw s.inp []).2.1 = .found := by
       simp [execRead, State.stdin, State.setStdin, hsh] at h
       exact h.2
     have hr := readLine_append raw s.inp S [] (readLine raw s.inp []).1 (readLine raw s.inp []).2.2
@@ -36,8 +36,8 @@ theorem execRead_app (s : State) (raw : Bool) (names : List String) (S : List By
     have : (s.inp ++ S).length - ((readLine raw s.inp []).2.2 ++ S).length
         = s.inp.length - (readLine raw s.inp []).2.2.length := by
       simp only [List.length_append]; omega
-    simp
-    exact ⟨by omega, hfound, by simp [hfound]⟩
+    simp [hfound]
+    omega
 
 theorem execCat_app (s : State) (bodies : List (List Char)) (here : Option Nat) (S : List Byte)
     (h : (execCat s bodies here).hitEof = false) :
